@@ -655,9 +655,9 @@ theorem wCopyAssign_expand (cfg : Cfg) (w : World) (i j : Nat) (a : Mgr) (hij : 
     expand cfg w (.wCopyAssign i j) =
       some ([Prim.copy (tmpT cfg) j a] ++ nativeMoveAssign cfg i (tmpT cfg) ++ [Prim.destroy (tmpT cfg)]) := by
   simp only [expand, hij, if_false, ha, tmpT, nativeMoveAssign]
-  cases hk : cfg.k.arrayStyle with
-  | true => simp [hiT hk]
-  | false => simp
+  rcases Bool.eq_false_or_eq_true cfg.k.arrayStyle with hk | hk
+  · simp [hk, hiT hk]
+  · simp [hk]
 
 /-- **`i = j` of a stdish wrapper**: the nested container is rebuilt with the allocator the propagation trait
     selects, then move-assigned -/
@@ -668,7 +668,7 @@ theorem wCopyAssign_spec (cfg : Cfg) (hrb : RebuildOk cfg.k) {w w1 : World} {evs
       w1.objs i = some t ∧ t.mgr = some a ∧ usable cfg.k t = true ∧
       contents w1.heap t = contents w.heap cj ∧ w1.objs j = some cj ∧ contents w1.heap cj = contents w.heap cj := by
   cases ha : allocOf w (if cfg.isEmpty || cfg.pocca then j else i) with
-  | none => simp [step, expand, hij, ha] at h
+  | none => simp only [step, expand, hij, if_false, ha] at h; cases h
   | some a =>
     have hiT : cfg.k.arrayStyle = true → i ≠ cfg.t1 := by
       intro hk e
@@ -710,28 +710,31 @@ theorem exec_new (k : Kind) (w : World) (i : Nat) (m : Mgr) (hi : w.objs i = non
             (allocCells m (List.replicate k.auxCount []) w.heap).1.map (Ev.alloc m)) := by
   simp [Prim.exec, hi]
 
+/-- events of the element-wise transfer out of the slot `src` (as in `Prim.exec`, `setLayout`) -/
+def srcXfer (k : Kind) (w : World) : Option Nat → List Ev
+  | none => []
+  | some s => match w.objs s with
+    | some sc => xferEvs k (contents w.heap sc)
+    | none => []
+
 theorem setLayout_inv {k : Kind} {w w' : World} {i : Nat} {inl : List Elem} {cells : List (List Elem)} {cap : Nat}
     {src : Option Nat} {evs : List Ev} (h : (Prim.setLayout i inl cells cap src).exec k w = some (w', evs)) :
     ∃ c m, w.objs i = some c ∧ c.mgr = some m ∧ c.aux.length = k.auxCount ∧
       w' = ⟨(allocCells m cells (freeCells c.body w.heap)).2,
             upd w.objs i (some { c with inl := inl, body := (allocCells m cells (freeCells c.body w.heap)).1, cap := cap })⟩ ∧
-      evs = (match src with
-              | none => []
-              | some s => match w.objs s with
-                | some sc => xferEvs k (contents w.heap sc)
-                | none => []) ++ c.body.map (Ev.free m) ++ (allocCells m cells (freeCells c.body w.heap)).1.map (Ev.alloc m) := by
-  simp only [Prim.exec] at h
-  split at h
-  · cases h
-  · rename_i c hi
-    split at h
-    · cases h
-    · rename_i m hm
-      split at h
-      · rename_i ha
-        simp only [Option.some.injEq, Prod.mk.injEq] at h
-        exact ⟨c, m, hi, hm, ha, h.1.symm, h.2.symm⟩
-      · cases h
+      evs = srcXfer k w src ++ c.body.map (Ev.free m) ++ (allocCells m cells (freeCells c.body w.heap)).1.map (Ev.alloc m) := by
+  cases hi : w.objs i with
+  | none => simp [Prim.exec, hi] at h
+  | some c =>
+    cases hm : c.mgr with
+    | none => simp [Prim.exec, hi, hm] at h
+    | some m =>
+      by_cases ha : c.aux.length = k.auxCount
+      · simp only [Prim.exec, hi, hm, ha, if_true, Option.some.injEq, Prod.mk.injEq] at h
+        refine ⟨c, m, rfl, hm, ha, ?_, ?_⟩
+        · rw [← h.1, hm]
+        · rw [← h.2]; cases src <;> rfl
+      · simp [Prim.exec, hi, hm, ha] at h
 
 /-- `Clear` of an object that holds a manager -/
 theorem clear_inv {k : Kind} {w w' : World} {i keep : Nat} {evs : List Ev} {c : Cont} {m : Mgr}
@@ -740,7 +743,8 @@ theorem clear_inv {k : Kind} {w w' : World} {i keep : Nat} {evs : List Ev} {c : 
           upd w.objs i (some { c with inl := [], body := c.body.take keep, cap := if c.body.take keep = [] then 0 else c.cap })⟩ ∧
     evs = destroyEvs k (contents w.heap c) ++ (c.body.drop keep).map (Ev.free m) := by
   simp only [Prim.exec, hi, hm, Option.some.injEq, Prod.mk.injEq] at h
-  exact ⟨h.1.symm, h.2.symm⟩
+  refine ⟨?_, h.2.symm⟩
+  rw [← h.1, hm]
 
 /-- after `Clear` nothing is left inside -/
 theorem contents_cleared {H : Heap} {c : Cont} (hnd : c.body.Nodup) (keep : Nat) :
